@@ -680,4 +680,58 @@ theorem opreturn_output_exists (parts : List Bytes) (h : ∀ p ∈ parts, p.leng
       | none => simp [hpp] at this
       | some pre => simp [encodeParts, hpp, he]
 
+open GoBT.C13
+
+
+private theorem encToks_pushes (items : List Bytes) : encToks (items.map Tok.push) = encodeParts items := by
+  induction items with
+  | nil => rfl
+  | cons p ps ih =>
+    simp only [List.map_cons, encToks, Tok.enc, encodeParts, ih]
+    cases pushPrefix p.length <;> cases encodeParts ps <;> simp
+
+/-- **The data items of a library-built data output are recoverable**: decoding the script `CreateOpReturnOutput` builds
+    from non-empty items gives OP_FALSE, OP_RETURN and then exactly the items. -/
+theorem opreturn_output_parts (items : List Bytes) (h : ∀ i ∈ items, 1 ≤ i.length ∧ i.length < 2 ^ 32) :
+    ∃ s, opReturnScript items = some s ∧ decodeParts s = ([0x00] :: [opRETURN] :: items, true) := by
+  have hok : ∀ t ∈ (Tok.op 0x00 :: Tok.op opRETURN :: items.map Tok.push), t.ok := by
+    intro t ht
+    simp only [List.mem_cons, List.mem_map] at ht
+    rcases ht with rfl | rfl | ⟨i, hi, rfl⟩
+    · simp [Tok.ok]
+    · simp [Tok.ok, opRETURN]
+    · exact h i hi
+  obtain ⟨enc, he, hd⟩ := decode_toks _ hok
+  simp only [encToks, Tok.enc, encToks_pushes] at he
+  cases hp : encodeParts items with
+  | none => simp [hp] at he
+  | some p =>
+    simp [hp] at he
+    refine ⟨enc, by simp [opReturnScript, hp, ← he], ?_⟩
+    have := hd enc.length (Nat.le_refl _)
+    simpa [decodeParts, Tok.part, List.map_map, Function.comp_def] using this
+
+/-- the same for the hash-puzzle output of `AddHashPuzzleOutput` -/
+theorem hash_puzzle_parts (sh pkh : Bytes) (h1 : 1 ≤ sh.length ∧ sh.length < 2 ^ 32) (h2 : 1 ≤ pkh.length ∧ pkh.length < 2 ^ 32) :
+    ∃ s, hashPuzzleScript sh pkh = some s ∧
+      decodeParts s = ([[0xa9], sh, [0x88], [0x76], [0xa9], pkh, [0x88], [0xac]], true) := by
+  have hok : ∀ t ∈ [Tok.op 0xa9, Tok.push sh, Tok.op 0x88, Tok.op 0x76, Tok.op 0xa9, Tok.push pkh, Tok.op 0x88, Tok.op 0xac], t.ok := by
+    intro t ht
+    simp only [List.mem_cons, List.not_mem_nil, or_false] at ht
+    rcases ht with rfl | rfl | rfl | rfl | rfl | rfl | rfl | rfl
+    all_goals first | exact h1 | exact h2 | simp [Tok.ok]
+  obtain ⟨enc, he, hd⟩ := decode_toks _ hok
+  simp only [encToks, Tok.enc] at he
+  cases ha : pushPrefix sh.length with
+  | none => simp [ha] at he
+  | some a =>
+    cases hb : pushPrefix pkh.length with
+    | none => simp [ha, hb] at he
+    | some b =>
+      simp [ha, hb] at he
+      refine ⟨enc, by simp [hashPuzzleScript, encodeParts, ha, hb, ← he], ?_⟩
+      have := hd enc.length (Nat.le_refl _)
+      simpa [decodeParts, Tok.part] using this
+
+
 end GoBT.C14
